@@ -64,15 +64,16 @@ func runVarWrites(fns []*ssa.Function, keys map[string]bool) []varWrite {
 	return out
 }
 
+// eventIs: block b is reached (on some path) with e.Event == ev established; `case "A", "B":` reaches its body both ways.
 func eventIs(b *ssa.BasicBlock, ev string) bool {
-	for _, a := range an.Atoms(b) {
+	return an.AnyAtom(b, func(a an.Atom) bool {
 		if a.Op == token.EQL && a.Y != nil && isFieldNamed(a.X, "Event") {
 			if s, ok := an.ConstString(a.Y); ok && s == ev {
 				return true
 			}
 		}
-	}
-	return false
+		return false
+	})
 }
 
 func r10a(c *an.Ctx) {
@@ -260,12 +261,19 @@ func r10bc(c *an.Ctx) {
 		c.Subject()
 		g := emptyGuarded(w.call.Block(), w.key)
 		ev := ""
+		var evs []string
 		for _, e := range []string{"START_ACTIVITY", "STOP_ACTIVITY", "GO_ERROR"} {
 			if eventIs(w.call.Block(), e) {
-				ev = e
+				evs = append(evs, e)
 			}
 		}
-		sites = append(sites, site{roleOf[w.fn], w.key, ev, g})
+		if len(evs) == 0 {
+			evs = []string{""}
+		}
+		for _, e := range evs {
+			sites = append(sites, site{roleOf[w.fn], w.key, e, g})
+		}
+		ev = strings.Join(evs, "+")
 		k := fmt.Sprintf("%s|%s|%s", roleOf[w.fn], ev, w.key)
 		// "however the run ends": beyond the event / state selection and the still-empty test, recording the end of the
 		// run may depend on nothing else
